@@ -281,12 +281,14 @@ package filesys
 
 //@ assume func golang.org/x/sys/unix.Unlinkat (dirfd, path, flags)
 //@   requires fopen[dirfd]
+//@   requires [the model is unlinkat without flags: a file, not AT_REMOVEDIR] flags == 0
 //@   modifies kdent
 //@   ensures result != nil ==> kdent == old(kdent)
 //@   ensures result == nil ==> old(plook(fino[dirfd], path)) != 0 && !kisdir[old(plook(fino[dirfd], path))] && kdent == old(kdent)[old(pparent(fino[dirfd], path)) := old(kdent)[old(pparent(fino[dirfd], path))][pname(path) := 0]]
 
 //@ assume func golang.org/x/sys/unix.Linkat (olddirfd, oldpath, newdirfd, newpath, flags)
 //@   requires fopen[olddirfd] && fopen[newdirfd]
+//@   requires [the model is linkat without flags] flags == 0
 //@   modifies kdent
 //@   ensures result != nil ==> kdent == old(kdent)
 //@   ensures result == nil ==> old(plook(fino[olddirfd], oldpath)) != 0 && old(plook(fino[newdirfd], newpath)) == 0 && old(pparent(fino[newdirfd], newpath)) != 0
